@@ -22,7 +22,7 @@ ASSUMPTIONS = [
     "masked: NBSP written as a character reference (the implementation replaces characters of the source text only)",
     "attribute and element names are compared as written (prefix:local); namespace declarations may move",
 ]
-REQUIRED = ["strings", "strings_with_nbsp", "documents", "documents_twice", "protected_segments", "normalised_segments", "attribute_values",
+REQUIRED = ["cross_mode_cases", "strings", "strings_with_nbsp", "documents", "documents_twice", "protected_segments", "normalised_segments", "attribute_values",
             "xsi_attributes", "protected_nested_in_protected"]
 EXHAUSTIVE = {"quick": False, "thorough": False}
 
@@ -239,6 +239,16 @@ def run(ctx, params):
             ctx.inconclusive_because("generator and expat reader disagree on a generated document")
             continue
         ctx.case(judge_doc, ctx, again, text)  # attribute order as written in the text
+        if i % 3 == 0:
+            # the two modes one after the other on related strings: what one mode returned must get the full treatment of the other
+            try:
+                flat = normalize(text)
+                judge_string(ctx, text)
+                ctx.case(judge_doc, ctx, xmlgen.read(flat), flat)
+                judge_string(ctx, normalize(text, is_xml=True))
+                ctx.count("cross_mode_cases")
+            except Exception:
+                ctx.count("cross_mode_skipped")
         if i % 11 == 0:
             ctx.later(lambda c, d=again, t=text: judge_doc(c, d, t))
         if i % 401 == 0:
